@@ -104,11 +104,25 @@ def build(case):
     """fresh objects for a case: (audit, contests, cvrs, mvrs).  Only glue of /repo is used."""
     from shangrla.core.Audit import Audit, Assertion, Contest, CVR
     a = case["audit"]
-    audit = Audit.from_dict({
-        "quantile": 0.8, "error_rate_1": float(Fraction(a["error_rate_1"])),
-        "error_rate_2": float(Fraction(a["error_rate_2"])), "reps": 10,
-        "strata": {"stratum_1": {"max_cards": len(case["cvrs"]), "use_style": a["use_style"],
-                                 "replacement": False}}})
+    ctor = case.get("via") == "ctor"
+    if ctor:
+        # the objects made by their constructors (Audit(...), Stratum(...), Contest(...)) instead of the from_dict
+        # class methods; an error rate that is the constructor's default (0.001 / 0) is left out of the call
+        from shangrla.core.Audit import Stratum
+        kw = {}
+        if Fraction(a["error_rate_1"]) != Fraction(1, 1000):
+            kw["error_rate_1"] = float(Fraction(a["error_rate_1"]))
+        if Fraction(a["error_rate_2"]) != 0:
+            kw["error_rate_2"] = float(Fraction(a["error_rate_2"]))
+        audit = Audit(quantile=0.8, reps=10, max_cards=len(case["cvrs"]),
+                      strata={"stratum_1": Stratum(id="stratum_1", max_cards=len(case["cvrs"]), use_style=a["use_style"],
+                                                   replacement=False)}, **kw)
+    else:
+        audit = Audit.from_dict({
+            "quantile": 0.8, "error_rate_1": float(Fraction(a["error_rate_1"])),
+            "error_rate_2": float(Fraction(a["error_rate_2"])), "reps": 10,
+            "strata": {"stratum_1": {"max_cards": len(case["cvrs"]), "use_style": a["use_style"],
+                                     "replacement": False}}})
     dd = {}
     for c in case["contests"]:
         d = {"name": c["id"], "risk_limit": dec(c["risk_limit"]), "cards": c.get("cards", len(case["cvrs"])),
@@ -123,7 +137,15 @@ def build(case):
         if c["choice_function"] == "IRV":
             d["assertion_json"] = copy.deepcopy(c["assertion_json"])
         dd[c["id"]] = d
-    contests = Contest.from_dict_of_dicts(dd)
+    if ctor:
+        contests = {}
+        for cid, d in dd.items():
+            aj = d.pop("assertion_json", None)
+            contests[cid] = Contest(id=cid, **d)
+            if aj is not None:
+                contests[cid].assertion_json = aj        # (not a constructor argument: set the way the notebooks do)
+    else:
+        contests = Contest.from_dict_of_dicts(dd)
     # APPROVAL is audited with plurality assertions; make_all_assertions has no branch for it
     appr = {k: v for k, v in contests.items() if v.choice_function == "APPROVAL"}
     rest = {k: v for k, v in contests.items() if v.choice_function != "APPROVAL"}
@@ -253,7 +275,12 @@ def impl(case):
                         if isinstance(asn.test, StubTest):
                             asn.test.k = oi
                             asn.test.calls = []
-                ret = Assertion.set_p_values(contests, mv, cv)
+                if case.get("call") == "kw":
+                    # documented keywords; no `cvr_sample` at all for a polling audit (its default is None)
+                    ret = (Assertion.set_p_values(contests=contests, mvr_sample=mv) if cv is None
+                           else Assertion.set_p_values(contests=contests, mvr_sample=mv, cvr_sample=cv))
+                else:
+                    ret = Assertion.set_p_values(contests, mv, cv)
                 step["ret"] = num(ret)
                 # "called again on the same data": what the configured test returns on the assertion's data
                 retest, called_ok = [], True
@@ -299,12 +326,15 @@ def impl(case):
                 step["retest"] = retest
                 step["called_on_data"] = called_ok
             elif op["op"] == "reset":
-                step["ret"] = bool(Assertion.reset_p_values(contests))
+                step["ret"] = bool(Assertion.reset_p_values(contests=contests) if case.get("call") == "kw"
+                                   else Assertion.reset_p_values(contests))
             elif op["op"] == "summarize":
                 with contextlib.redirect_stdout(io.StringIO()):
-                    step["ret"] = bool(audit.summarize_status(contests))
+                    step["ret"] = bool(audit.summarize_status(contests=contests) if case.get("call") == "kw"
+                                       else audit.summarize_status(contests))
             elif op["op"] == "check":
-                step["ret"] = audit.check_audit_parameters(contests)
+                step["ret"] = (audit.check_audit_parameters(contests=contests) if case.get("call") == "kw"
+                               else audit.check_audit_parameters(contests))
             step["st"] = "ok"
         except Exception as e:  # noqa
             step["st"] = "err"
@@ -466,6 +496,16 @@ def oracle_c09(case, ir):
         return {"what": f"building the audit raised {ir.get('err')}: {ir.get('msg')}"}
     prm = ir["params"]
     lim = {c["id"]: _f(c["risk_limit"]) for c in prm["contests"]}
+    # "that contest's own risk limit" is the one the audit was configured with: whatever entry point built the objects
+    # (from_dict class methods or the constructors), they hold the configured limits and error rates
+    for c, pc in zip(case["contests"], prm["contests"]):
+        if "risk_limit" not in (c.get("post") or {}) and not _same(_f(pc["risk_limit"]), dec(c["risk_limit"])):
+            return {"what": f"contest {c['id']} was configured with risk limit {c['risk_limit']} but the Contest object "
+                            f"({'constructor' if case.get('via') == 'ctor' else 'from_dict_of_dicts'}) holds {pc['risk_limit']}"}
+    for k in ("error_rate_1", "error_rate_2"):
+        if not _same(_f(prm[k]), float(Fraction(case["audit"][k]))):
+            return {"what": f"the audit was configured with {k} = {case['audit'][k]} but the Audit object "
+                            f"({'constructor' if case.get('via') == 'ctor' else 'from_dict'}) holds {prm[k]}"}
     prev = ir["init"]
     for i, s in enumerate(ir["steps"]):
         w = f"step {i} ({s['op']})"
@@ -933,7 +973,36 @@ def usable(case):
         return False
 
 
+def gen_options(rng):
+    """entry points and call forms the other streams never use (OPTIONS_AUDIT.md): Audit / Stratum / Contest objects
+    made by their constructors (error rates at the constructor defaults left out), and the four operations called with
+    their documented keywords (set_p_values without `cvr_sample` for a polling audit)"""
+    case = gen_real_case(rng) if rng.chance(0.25) else gen_stub_case(rng)
+    r = rng.random()
+    if r < 0.6:
+        case["via"] = "ctor"
+        if rng.chance(0.5):
+            case["audit"]["error_rate_1"], case["audit"]["error_rate_2"] = "1/1000", "0"
+    if r >= 0.4:
+        case["call"] = "kw"
+    return case
+
+
 def gen(rng, n, tier):
+    import hashlib
+    from ..core import Rng
+    opt = Rng(int(hashlib.sha1(("options" + repr(rng.getstate())).encode()).hexdigest()[:15], 16))
+    yield from gen_main(rng, n, tier)
+    count = tries = 0
+    while count < max(6, n // 15) and tries < 2000:
+        tries += 1
+        case = gen_options(opt)
+        if usable(case):
+            yield case
+            count += 1
+
+
+def gen_main(rng, n, tier):
     count = 0
     n_real = max(1, n // 5)
     tries = 0
